@@ -656,7 +656,8 @@ func TestProp(t *testing.T) {
 			"Oracle: sequential least-fixed-point model (selected by keep against the set itself, or referenced from the set) computed by naive iteration; id sets and payloads (coordinates, node " +
 			"lists, members, tags iff keepTags) must equal the model for every schedule and worker count; Check() nil when the document has no dangling reference; Filter result = model applied to " +
 			"the extracted data, subset, closed, idempotent. Non-trivial = some object is selected only because of state built earlier (bounds-selected way/relation or >=2 dependency levels) and the " +
-			"schedule releases some entity out of canonical order (sched) / the element order is not conventional (plain); filter cases with ways or relations. Distinct by case hash.",
+			"schedule releases some entity out of canonical order (sched) / the element order is not conventional (plain); filter cases with ways or relations. Distinct by case hash." +
+			" Round 9: tag keys and values containing '=', ',' and blanks, extending one another across an '=' sign.",
 		Assumptions: []string{"schedules are explored at the granularity of the hook points (receive, keep evaluation, done, send, close)", "the sched engine depends on the build-tag verif hooks in encoding/osm"},
 		Gen:         gen,
 		Run:         run,
